@@ -134,6 +134,9 @@ func amfDeepBytes(nest string, n int, closed bool) []byte {
 	return b
 }
 
+// sdfHeld: results of MetadataEnsureWithSdf / WithoutSdf handed out so far, each with a copy taken at that moment
+var sdfHeld [][2][]byte
+
 // lalWriteErr: the error of the last lalWrite (the writer refused the value)
 var lalWriteErr error
 
@@ -321,11 +324,19 @@ func amfDriver(env *Env) error {
 			in = append(in, proj.AmfEncode(&v)...)
 			with, e1 := rtmp.MetadataEnsureWithSdf(in)
 			without, e2 := rtmp.MetadataEnsureWithoutSdf(in)
+			// what was handed out earlier (to another stream, or for an earlier metadata of this one) stays what it was
+			stable := true
+			for _, h := range sdfHeld {
+				if !bytes.Equal(h[0], h[1]) {
+					stable = false
+				}
+			}
+			sdfHeld = append(sdfHeld, [2][]byte{with, append([]byte(nil), with...)}, [2][]byte{without, append([]byte(nil), without...)})
 			ti, _ := proj.AmfTokenize(in)
 			tw1, ok1 := proj.AmfTokenize(with)
 			tw2, ok2 := proj.AmfTokenize(without)
 			tw.Emit(M{"ev": "Sdf", "sc": sc.Sc, "in": ti, "with": tw1, "without": tw2,
-				"ok": e1 == nil && e2 == nil && ok1 && ok2})
+				"ok": e1 == nil && e2 == nil && ok1 && ok2, "stable": stable})
 		case "meta":
 			b, err := rtmp.BuildMetadata(sc.W, sc.H, sc.A, sc.Vc)
 			toks, tok := proj.AmfTokenize(b)
